@@ -203,6 +203,34 @@ def main():
                 program=_short(prog), event_index=rej["l"], event=ev,
                 state=rej["state"][:500]), dict(program=prog))
 
+    # ------------------- the repository's own unit tests under the tracer
+    # Every Manager transition the tests exercise (their assertions do not
+    # look at the manager) must be one the specification allows; contexts
+    # must restore; counter and flag must agree with the open contexts.
+    from harness import repotests
+    tr2 = UnitsTracer()
+    tr2.install()
+    try:
+        ttraces, tlabels, tskip = repotests.run_under(tr2, thorough=ck.thorough)
+    finally:
+        tr2.uninstall()
+    for lab, t in zip(tlabels, ttraces):
+        ck.case("repo-test-trace", lab, nontrivial=len(t) >= 2,
+                sample=dict(test=lab, events=len(t)))
+    if len(ttraces) < 10:
+        raise MachineryFailure("only %d repository tests produced units "
+                               "events" % len(ttraces))
+    rej = ck.validate_traces("UnitsTrace", "UnitsTrace_tests.cfg", ttraces,
+                             workers=8)
+    if rej:
+        t = ttraces[rej["tid"] - 1]
+        ev = t[min(rej["l"], len(t)) - 1]
+        ck.violation("repo-test-" + str(rej["violated"]),
+                     "testtrace:%s:%s" % (rej["violated"], ev.get("ev")),
+                     dict(test=tlabels[rej["tid"] - 1], event_index=rej["l"],
+                          event=ev, state=rej["state"][:500]),
+                     dict(test=tlabels[rej["tid"] - 1]))
+
     # negative control of the binding: a trace in which a call returns with
     # changed units must be flagged
     badtr = [[
